@@ -72,6 +72,18 @@ Theorem C13_bb_average_binary64_no_drift : forall p s xs M, sd_new FOps p = Ok s
           (Wiring.sd_mean_outs FOps s xs) (prefixes_from [] xs).
 Proof. exact sd_mean_float_error. Qed.
 
+(* Known finding K7 (b): REFUTED for WeightedMovingAverage on an ordinary long stream — the saw-tooth of the twin generators in the band
+   [1e6, 1e9]: the model's WMA(2) leaves tau(t) * maxmag of the exact weighted mean of its window at checkpoint 27 (t = 94 500), while
+   SMA(2) on the same stream stays inside at all 40 checkpoints. vm_compute over 140 000 model steps; the implementation's bit-exact
+   agreement with the model on this stream is case k7b of the check. *)
+From Coq Require Import Uint63.
+From TA Require Import Generic Run Gen Proofs.K7b.
+Theorem C13_K7_wma_sawtooth_refuted : model_t2_first_fail KWma (Pm 2 0 0 0) k7b_gen 3 1e9 = 27%N.
+Proof. exact k7b_wma_leaves_tau. Qed.
+Theorem C13_K7_sma_same_stream_within : model_t2_first_fail KSma (Pm 2 0 0 0) k7b_gen 3 1e9 = 0%N.
+Proof. exact k7b_sma_within_tau. Qed.
+Theorem C13_K7_stream_def : k7b_gen = mkGen 5%uint63 12345%uint63 140000%N 1e6%float 1e9%float 3500%N 0%uint63.
+Proof. reflexivity. Qed.
 From Coq Require Import List Floats.
 From TA Require Import Generic FloatInst XQ Run2 Par.Hom Par.Var Par.Oracle.
 (* the T2 oracle (exact rational run, evaluated by the checks) is the image of the exact real run these
